@@ -49,6 +49,8 @@ SCOPE = {"quick": "701 exhaustive datasets (n<=3, m<=2) x 2 schemes x 1.5 naming
                      "(n<=7, m<=5) x 4 schemes; 7 configurations x 2 flag values"}
 EXHAUSTIVE = {"quick": False, "thorough": False}
 CHUNK = 4
+# every 6th case is run a second time with every algorithm object used before on related inputs (bounded/algs.py: warm)
+WARM_EVERY = {"quick": 6, "thorough": 6}
 # every 8th case is run a second time with its datasets reached through a history (vlib.t2run._with_histories)
 VIA_EVERY = {"quick": 8, "thorough": 8}
 TIMEOUT = 300
